@@ -301,6 +301,11 @@ impl World {
                 self.pipes.entry(num(1).unwrap()).or_insert_with(Pipe::new).set_yieldy(if k == 0 { None } else { Some(k) }, chunk);
                 "ok".into()
             }
+            // wrerr1 p kind: a TRANSIENT write error — exactly one write on the pipe fails
+            "wrerr1" => {
+                self.pipes.entry(num(1).unwrap()).or_insert_with(Pipe::new).wrerr_once(err_kind(w.get(2).unwrap_or(&"Interrupted")));
+                "ok".into()
+            }
             "credit" => {
                 let c = if w[2] == "inf" { None } else { Some(w[2].parse::<usize>().unwrap()) };
                 self.pipes.entry(num(1).unwrap()).or_insert_with(Pipe::new).set_credit(c);
